@@ -18,7 +18,8 @@ THEOREMS = ['C08_dual_ring', 'C08_dual_is_derivative', 'C08_derivative_linear',
             'C08_vertical_tendency_jvp', 'C08_t_omega_jvp', 'C08_temp_adiabatic_jvp',
             'C08_temp_vertical_tendency_jvp', 'C08_kinetic_jvp', 'C08_hsa_jvp', 'C08_rt_jvp', 'C08_combined_uv_jvp',
             'C08_temp_adiabatic_moist_jvp', 'C08_humidity_terms_jvp', 'C08_temp_nodal_total_jvp',
-            'C08_log_pressure_tendency_jvp', 'C08_filter_jvp_is_self', 'C08_filter_self_adjoint', 'C08_ops_example']
+            'C08_log_pressure_tendency_jvp', 'C08_filter_jvp_is_self', 'C08_filter_self_adjoint', 'C08_ops_example',
+            'C08_model_is_source']
 LEVEL = 'proof'
 LEVEL_TEXT = ('Coq theorems: dual numbers form a commutative ring; for EVERY expression of field operations evaluation '
               'at x+eps*v yields (value, directional derivative); the derivative is linear in the tangent; central '
